@@ -228,12 +228,25 @@ class ApiProp(props.BaseProp):
                 "undirected graphs (C20_degree_maps_total); get_subgraph / set_all_edge_weights never hit their unwrap; the "
                 "sparse adjacency matrix never indexes an empty group (C20_matrix_total); functions without an error channel "
                 "(get_successors_or_neighbors) are total on existing names; existing names yield Ok, absent names "
-                "NodeNotFound/None. The algorithm families carry their own no-panic / fuel-suffices "
+                "NodeNotFound/None. "
+                "Shortest paths (dijkstra.rs), for every WF graph with fewer "
+                "than 2^31-1 adjacency entries (the i32 counter; true up to 46340 nodes): dijkstra, dijkstra_basic and "
+                "single_source never panic and never exhaust their fuel for ANY weights, names, options and cutoff "
+                "(negative weights may give Err ContradictoryPaths, absent names Err NodeNotFound: "
+                "C20_dijkstra_never_panics, C20_dijkstra_basic_never_panics, C20_single_source_never_panics); "
+                "multi_source, all_pairs and get_all_shortest_paths_involving never panic for non-negative stored "
+                "weights (or hop count) and cutoff >= 0, any names and options (C20_multi_source_never_panics_partial, "
+                "C20_all_pairs_never_panics_partial, C20_involving_never_panics_partial). "
+                "The other algorithm families carry their own no-panic / fuel-suffices "
                 "theorems (C04-C06, C10-C13, C18, C19). Beyond the theorems the check sweeps EVERY public function x 8 "
                 "graph kinds x 14 degenerate shapes x existing/absent names in debug and release builds under a watchdog "
                 "and applies the property's rules (no panic, no hang, error channel used for unsupported kinds and absent "
                 "names).",
-        "note": "Partial: the sweep is exploration, not proof, for the functions whose models live in other packages; "
+        "note": "NOT proved, and false in the model: multi_source / all_pairs / get_all_shortest_paths_involving with "
+                "NEGATIVE weights - they unwrap the per-source Result (dijkstra.rs:376, :172), so a ContradictoryPaths "
+                "becomes a panic (Example C20_negative_weights_panic; negative weights are outside the property's "
+                "'valid calls' and are not generated by the sweep). "
+                "Partial: the sweep is exploration, not proof, for the functions whose models live in other packages; "
                 "'does not hang' is a 4 s watchdog. Axioms: none. Defects found by the sweep and repaired by fix: commits: "
                 "F5/F19 (clustering subsets / absent names), F6 (transitivity underflow), F7 (multi-edge guards), F13 "
                 "(all_pairs absent target), F14 (eigenvector on multi-edge graphs), F15 (square_clustering underflow), "
